@@ -11,6 +11,7 @@ def scenarios(rng, tier):
     s = Scn(); n = 36 if tier == 'quick' else 800
     for k in range(n):
         mtu = rng.choice([576, 1500, 1500, 9216]) if k % 4 else rng.choice([576, 577, 600])
+        if k % 3 == 1: mtu = rng.choice([1492, 1493]) if rng.random() < 0.4 else 576 + rng.randrange(40)     # every residue of (MTU-34) mod 20; 1492 = PPPoE
         cfg = Cfg(0, mtu=mtu); own = cfg.own(); cap = (mtu - 34) // 20
         s.start('see_%d' % k); s.lines.append(cfg.line())
         M = mac(1); ME = M if rng.random() < 0.6 else mac(40)
